@@ -75,6 +75,13 @@ def run(facts, rep, tier, ctx):
         rep.floor("handle hand-out sites (%s)" % w.tag, n, 5)
     ws = World(facts, False)
     physrules.table_o_shape(facts, rep, "R14.1p", ws)
+    # R14.8 the handle a path method hands out is the one the backend's method of that name made (a create handle is not an append
+    # handle: on disk the latter writes at the end whatever was sought)
+    from ..pathrules import PathRules as _PR14
+    from .c10 import _Prefixed as _Pf14b
+    for w8 in (ws, World(facts, True)):
+        if w8.present():
+            _PR14(facts, w8, D).backend_passthrough(rep if not w8.asyncw else _Pf14b(rep, "R14.6"), "R14.8", ("create_file", "append_file", "open_file"))
     # append positions at End(0); create starts empty (shared with C04)
     from . import c04
     c04.session_start_rules(facts, rep, ws, D, "R14.5s")
